@@ -12,8 +12,10 @@
    REFUTED on the faithful model and on the real code: the CPU part (C36_cpu_fit_refuted, C36_cpu_fit_numcpu_cap_refuted;
    KNOWN_FINDINGS keys cpuset-change-over-count0-group and cpu-percentage-only-sized-beyond-numcpu; a third defect,
    cpu-check-stops-at-cpuset-only-ancestor, was repaired in /repo commit 731c638 and is now a regression case).
-   NOT PROVED here: a guarded CPU theorem (what the CPU fit does guarantee outside the two defect classes); the CPU fit is
-   monitored on the observed trees of the implementation in every run (Quota.inv_cpu), which is testing, not proof. *)
+   GUARDED CPU theorem (C36_cpu_fit_no_percentage_only_partial): the CPU fit holds after every history without
+   percentage-only (count 0) cpu quotas. NOT PROVED: the CPU fit for histories with percentage-only quotas under a guard
+   that only forbids changes of their effective cpu set; there the fit is monitored on the implementation's observed
+   trees in every run (Quota.inv_cpu), which is testing, not proof. *)
 From Coq Require Import List ZArith NArith Bool.
 Import ListNotations.
 Require Import V.models.Quota V.proofs.QuotaProofs.
@@ -73,6 +75,18 @@ Example C36_ex_set_only_ancestor_now_refused :
   inv_cpu 8 (run 8 [] cpu_witness_2) = true.
 Proof. exact set_only_ancestor_now_refused. Qed.
 
+(* GUARDED CPU theorem - PARTIAL. The guard is stronger than `no accepted request changes the effective cpu set of a
+   percentage-only group`: it excludes percentage-only quotas altogether. For every history in which every requested cpu
+   quota has a count >= 1 and a percentage >= 1 (cpu sets, memory and threads arbitrary), the cpu fit holds after the
+   history: every group with a cpu quota holds the combined effective reservations of its sub-groups. Together with the
+   two refutations this says: all cpu-fit defects of the (repaired) code need a percentage-only quota.
+   Missing for the weaker guard: see notes/C36.md (C36_cpu_fit_numcpu_cap_refuted shows that guard alone is not enough). *)
+Theorem C36_cpu_fit_no_percentage_only_partial : forall (ncpu : Z) (qs : list req),
+  Forall (fun q => match r_cpu (req_res q) with Some (c, p) => 0 < c /\ 0 < p | None => True end) qs ->
+  inv_cpu ncpu (run ncpu [] qs) = true.
+Proof. exact cpu_fit_without_percentage_only. Qed.
+Print Assumptions C36_cpu_fit_no_percentage_only_partial.
+
 (* non-vacuity: histories with accepted nested creations and updates exist, requests are refused for lack of room, and
    the invariant is not trivially true of arbitrary forests *)
 Definition mib (n : Z) : Z := n * 1024 * 1024.
@@ -91,4 +105,21 @@ Proof. vm_compute. reflexivity. Qed.
 Example C36_ex_refused : step 4 (run 4 [] (firstn 4 ex_hist)) (RSub [0%nat] 5 (mkRes (Some (mib 1)) None None None)) = None.
 Proof. vm_compute. reflexivity. Qed.
 Example C36_ex_not_trivial : inv_mem [G 1 (mkLim (mib 1) 0 0 0 []) [G 2 (mkLim (mib 2) 0 0 0 []) []]] = false.
+Proof. vm_compute. reflexivity. Qed.
+
+(* the guard of C36_cpu_fit_no_percentage_only_partial is satisfiable by a history with nested cpu quotas, cpu sets and a
+   refusal for lack of cpu room *)
+Definition ex_cpu_hist : list req :=
+  [ RNew 1 (mkRes None (Some (2, 100)) (Some [0; 1]) None);
+    RSub [0%nat] 2 (mkRes (Some (mib 1)) None None None);
+    RSub [0%nat; 0%nat] 3 (mkRes None (Some (1, 50)) None None);
+    RSub [0%nat; 0%nat] 4 (mkRes None (Some (1, 100)) (Some [1]) None);
+    RSub [0%nat] 5 (mkRes None (Some (1, 100)) None None);               (* refused: 50 + 100 + 100 > 200 *)
+    RUpd [0%nat; 0%nat; 0%nat] (mkRes None (Some (2, 50)) None None) ].  (* accepted: 100 + 100 = 200 *)
+Example C36_ex_cpu_guard : Forall (fun q => match r_cpu (req_res q) with Some (c, p) => 0 < c /\ 0 < p | None => True end) ex_cpu_hist.
+Proof. repeat constructor. Qed.
+Example C36_ex_cpu_run : run 8 [] ex_cpu_hist =
+  [G 1 (mkLim 0 0 2 100 [0; 1]) [G 2 (mkLim (mib 1) 0 0 0 []) [G 3 (mkLim 0 0 2 50 []) []; G 4 (mkLim 0 0 1 100 [1]) []]]].
+Proof. vm_compute. reflexivity. Qed.
+Example C36_ex_cpu_refused : step 8 (run 8 [] (firstn 4 ex_cpu_hist)) (RSub [0%nat] 5 (mkRes None (Some (1, 100)) None None)) = None.
 Proof. vm_compute. reflexivity. Qed.
